@@ -151,11 +151,14 @@ class SFunc:
         self.name = name
         self.arity = arity
         self.f = z3.Function(name, *([z3.RealSort()] * arity), z3.RealSort())
+        self.fi = z3.Function(name + '_im', *([z3.RealSort()] * arity), z3.RealSort()) if complex_out else None
         self.may_raise = may_raise
         self.calls = 0
 
     def apply_scalar(self, *xs):
         ts = [(Sym.lift(x) if not isinstance(x, Sym) else x).as_real() for x in xs]
+        if self.fi is not None:
+            return SCplx(Sym(self.f(*ts), 'real'), Sym(self.fi(*ts), 'real'))
         return Sym(self.f(*ts), 'real')
 
 
@@ -463,7 +466,8 @@ class Interp:
             return f.apply_scalar(*args)
         if len(args) == 1:
             a = args[0]
-            return SArr(a.shape, lambda idx: f.apply_scalar(a.at(idx)), 'real')
+            snap = a._snapshot()
+            return SArr(a.shape, lambda idx: f.apply_scalar(snap(idx)), 'complex' if f.fi is not None else 'real')
         a, b = args
         return elementwise2(a, b, lambda x, y: f.apply_scalar(x, y), '/')
 
